@@ -65,8 +65,8 @@ ASSUMPTIONS = [
 # ---------------------------------------------------------------------------------------------------------------
 # alphabets (simplest first)
 # ---------------------------------------------------------------------------------------------------------------
-MNEMS = ['GR', 'A1', 'SFLU', 'X-Y_2', '42', 'NO']
-UNITS = ['', 'M', 'F', 'US/F', '.1IN']
+MNEMS = ['GR', 'A1', 'SFLU', 'X-Y_2', '42', 'NO', 'TIME', 'DATE']   # TIME / DATE: the reader has special (DATE, D) and (TIME, HHMMSS) channels; with other units they are ordinary curves
+UNITS = ['', 'M', 'F', 'US/F', '.1IN', 'S']
 VALUES = ['', '7', '-7', '1.5', '1e3', 'yes', 'NO', '12:30:00', '13-DEC-86', 'A.B 1', 'a b  c']
 DESCS = ['', 'text', 'two words', '1 DEPTH', 'x.y', '42', 'yes']
 CELLS = ['1.5', '-0.25', '1e-3', L.CELL_NULL, 'abc', 'NaN', '1.2.3']
